@@ -179,6 +179,9 @@ SWEEP_PART_OPS = (
     + [[["breakattr", k]] for k in (0, 1, 2)]
     + [[["kwcall", k]] for k in (0, 1)]
     + [[["insetlist", k]] for k in (0, 1)]
+    + [[["widenimport", k]] for k in (0, 1)]
+    + [[["parenbreak", k]] for k in (0, 1, 2)]
+    + [[["bodyhead", 0, s_]] for s_ in ("for", "if", "with", "try", "def", "docstring")]
     + [[["dictsplat", k]] for k in (0, 1)]
     + [[["sameline", k]] for k in (0, 1, 2)]
     + [[["tuplerhs", k, s_]] for k in (0, 1) for s_ in ("tuple", "lambda")]
